@@ -4,6 +4,6 @@ seeds="$1"; shift
 props="${*:-C01 C02 C03 C04 C05 C06 C07 C08 C09 C10 C11 C12 C13 C14 C15 C16 C17 C18 C19 C20}"
 for s in $seeds; do for p in $props; do
   t0=$(date +%s)
-  VERIF_SEED=$s ./check $p --tier quick > /tmp/soak_${p}_$s.log 2>&1; rc=$?
+  VERIF_EVIDENCE_DIR=/tmp/verif-evidence-soak VERIF_SEED=$s ./check $p --tier quick > /tmp/soak_${p}_$s.log 2>&1; rc=$?
   echo "seed=$s $p rc=$rc $(( $(date +%s) - t0 ))s $(grep -c '^VIOLATION' /tmp/soak_${p}_$s.log) violations"
 done; done
